@@ -6,7 +6,13 @@ package main
 //   (a) garbage byte strings, (b) mutated valid messages,
 //   (c) messages built from a random MIME tree (reported BODYSTRUCTURE compared with the tree:
 //       types, parameters, sizes, line counts),
-//   (d) deep nesting: multiparts, message/rfc822, header comments `((((…`.
+//   (d) deep nesting: multiparts, message/rfc822, header comments `((((…`,
+//   (e) size / depth boundaries (case kind `shape`, d_mimedeep.go): chains of multiparts, of embedded
+//       messages and alternating ones nested 1..1025 (thorough: 4097) levels deep around the usual caps,
+//       multiparts with up to 10000 parts, long boundaries / header lines / parameter lists: reported
+//       BODYSTRUCTURE = the tree the message was built from, Walk visits as many sections with as long
+//       part paths as the tree has, FETCH BODY[path] of the deepest path (and some prefixes) returns
+//       exactly the addressed part's bytes.
 // Every produced ENVELOPE / BODY / BODYSTRUCTURE text is checked with the Go s-expression checker
 // and, through the `sexp` dialect of the Lean model driver, with the executable Lean reader
 // `Gluon.Mime.parseSexp` (the definition the theorem `paramlist_wellformed` is about).
@@ -34,6 +40,7 @@ import (
 	"github.com/ProtonMail/gluon/imap"
 	"github.com/ProtonMail/gluon/rfc5322"
 	"github.com/ProtonMail/gluon/rfc822"
+	"github.com/ProtonMail/gluon/verifhooks"
 )
 
 // ---------------------------------------------------------------------------------------------
@@ -47,12 +54,15 @@ type c12case struct {
 	flat   string
 	deepK  string
 	depth  int
+	width  int // shape cases: second size
 }
 
 func (c *c12case) line() string {
 	switch c.kind {
 	case "deep":
 		return fmt.Sprintf("deep %s %d", c.deepK, c.depth)
+	case "shape":
+		return fmt.Sprintf("shape %s %d %d", c.deepK, c.depth, c.width)
 	case "built":
 		return fmt.Sprintf("built %s %s %s", mimeHex(c.data), mimeHex([]byte(c.expect)), mimeHex([]byte(c.flat)))
 	default:
@@ -69,6 +79,13 @@ func c12ParseCaseLine(l string) (*c12case, bool) {
 			return nil, false
 		}
 		return &c12case{kind: "deep", class: "deep-" + w[1], deepK: w[1], depth: d}, true
+	case len(w) == 4 && w[0] == "shape":
+		d, err1 := strconv.Atoi(w[2])
+		wd, err2 := strconv.Atoi(w[3])
+		if err1 != nil || err2 != nil || c12ShapeTree(c12ShapeSpec{w[1], 1, 1}) == nil {
+			return nil, false
+		}
+		return &c12case{kind: "shape", class: "shape-" + w[1], deepK: w[1], depth: d, width: wd}, true
 	case len(w) == 4 && w[0] == "built":
 		return &c12case{kind: "built", class: "built", data: mimeUnhex(w[1]), expect: string(mimeUnhex(w[2])), flat: string(mimeUnhex(w[3]))}, true
 	case len(w) == 2 && (w[0] == "msg" || w[0] == "addr"):
@@ -261,6 +278,8 @@ func c12WorkerRun(l string) (out string) {
 			return "err"
 		}
 		return fmt.Sprintf("ok %d", len(as))
+	case "shape":
+		return c12WorkerShape(c)
 	case "deep":
 		msg := c12DeepMessage(c.deepK, c.depth)
 		if msg == nil {
@@ -305,6 +324,132 @@ func c12WorkerRun(l string) (out string) {
 		}
 		return fmt.Sprintf("ok %s %s %s %s", mimeHex([]byte(pm.Body)), mimeHex([]byte(pm.Structure)), mimeHex([]byte(pm.Envelope)), strings.Join(sb, ";"))
 	}
+}
+
+// c12CanonDepth: nesting depth of a canonical structure text (`{` … `}`)
+func c12CanonDepth(s string) int {
+	d, m := 0, 0
+	for i := 0; i < len(s); i++ {
+		switch s[i] {
+		case '{':
+			d++
+			m = max(m, d)
+		case '}':
+			d--
+		}
+	}
+	return m
+}
+
+func c12Dotted(path []int) string {
+	var sb []string
+	for _, p := range path {
+		sb = append(sb, strconv.Itoa(p))
+	}
+	return strings.Join(sb, ".")
+}
+
+// c12WorkerShape: a message of a given shape (d_mimedeep.go) through the real code:
+//   - NewParsedMessage: the three texts are lists; BODYSTRUCTURE read back = the tree the message was
+//     built from (or that tree with the known flattening of message/rfc822-holding-a-multipart),
+//   - Parse+Walk: as many sections and as long part paths as the tree has,
+//   - FETCH BODY[path] (state.fetchAttributeBodySection) for the deepest path and some of its prefixes:
+//     exactly the body bytes of the addressed part.
+//
+// answer: `okshape <b> <s> <e> <tree|flat|mismatch> <walk ok|bad> <part ok|bad> <listdepth> <hex structure detail>
+// <hex walk detail> <hex part detail> <hextext|->`
+func c12WorkerShape(c *c12case) string {
+	t, msg := c12ShapeMessage(c12ShapeSpec{c.deepK, c.depth, c.width})
+	if t == nil {
+		return "bad-case"
+	}
+	pm, err := imap.NewParsedMessage(msg)
+	if err != nil {
+		return "err"
+	}
+	var dStruct, dWalk, dPart []string
+	// structure
+	verdict := "mismatch"
+	listDepth := 0
+	if items, ok := sxParse([]byte(pm.Structure)); ok && len(items) == 1 {
+		listDepth = sxDepth(items[0])
+		got := c12ReportedCanon(items[0])
+		expect, flat := t.expectCanon("\r\n", false), t.expectCanon("\r\n", true)
+		switch {
+		case got == expect:
+			verdict = "tree"
+		case got == flat:
+			verdict = "flat"
+		default:
+			gd, ed := c12CanonDepth(got), c12CanonDepth(flat)
+			if gd != ed {
+				dStruct = append(dStruct, fmt.Sprintf("tree-depth-differs: BODYSTRUCTURE nests %d parts deep, the MIME tree %d", gd, ed))
+			}
+			i := 0
+			for i < len(got) && i < len(flat) && got[i] == flat[i] {
+				i++
+			}
+			cut := func(s string) string { return s[max(0, i-60):min(len(s), i+160)] }
+			dStruct = append(dStruct, fmt.Sprintf("structure differs at offset %d of the canonical text: expected …%s… reported …%s…", i, cut(flat), cut(got)))
+		}
+	}
+	// sections
+	wantN, wantD := t.c12SecShape()
+	gotN, gotD := 0, 0
+	werr := rfc822.Parse(msg).Walk(func(s *rfc822.Section) error {
+		gotN++
+		gotD = max(gotD, len(s.Identifier()))
+		return nil
+	})
+	walk := "ok"
+	switch {
+	case werr != nil:
+		walk = "bad"
+		dWalk = append(dWalk, "Walk returned an error: "+werr.Error())
+	case gotD != wantD:
+		walk = "bad"
+		dWalk = append(dWalk, fmt.Sprintf("tree-depth-differs: Walk's longest part path has %d numbers, the MIME tree's %d (sections %d / %d)", gotD, wantD, gotN, wantN))
+	case gotN != wantN:
+		walk = "bad"
+		dWalk = append(dWalk, fmt.Sprintf("Walk visited %d sections, the MIME tree has %d", gotN, wantN))
+	}
+	// body sections
+	part := "ok"
+	path, nodes := t.c12DeepestPath()
+	seen := map[int]bool{}
+	for _, k := range []int{len(path), len(path) - 1, len(path) / 2, 1} {
+		if k < 1 || k > len(path) || seen[k] {
+			continue
+		}
+		seen[k] = true
+		want := nodes[k].renderBody("\r\n")
+		res, ferr, p := verifhooks.FetchBodySection(msg, path[:k], "", nil, false, 0, 0)
+		wantItem := fmt.Sprintf("BODY[%s] {%d}\r\n%s", c12Dotted(path[:k]), len(want), want)
+		switch {
+		case p != nil:
+			part = "bad"
+			dPart = append(dPart, fmt.Sprintf("BODY[%s] (path of %d numbers) panicked: %v", c12Dotted(path[:k]), k, p))
+		case ferr != nil:
+			part = "bad"
+			dPart = append(dPart, fmt.Sprintf("BODY[%s] (path of %d numbers) failed: %v", c12Dotted(path[:k]), k, ferr))
+		case res != wantItem:
+			part = "bad"
+			show := func(s string) string {
+				if len(s) > 120 {
+					s = s[:60] + "…" + s[len(s)-60:]
+				}
+				return strconv.Quote(s)
+			}
+			dPart = append(dPart, fmt.Sprintf("BODY[<path of %d numbers>] is not the addressed part: expected %d bytes %s, got %s", k, len(want), show(string(want)), show(res[min(len(res), len(c12Dotted(path[:k]))+6):])))
+		}
+	}
+	small := "-"
+	if len(pm.Structure) <= 60000 {
+		small = mimeHex([]byte(pm.Structure))
+	}
+	return fmt.Sprintf("okshape %s %s %s %s %s %s %d %s %s %s %s", b2s(sxIsParenList([]byte(pm.Body))), b2s(sxIsParenList([]byte(pm.Structure))),
+		b2s(sxIsParenList([]byte(pm.Envelope))), verdict, walk, part, listDepth, mimeHex([]byte(strings.Join(dStruct, "; "))),
+		mimeHex([]byte(strings.Join(dWalk, "; "))), mimeHex([]byte(strings.Join(dPart, "; "))), small)
 }
 
 func c12WorkerMain() int {
@@ -541,6 +686,30 @@ func (e *c12eval) evaluate(c *c12case, res, status string, stderr string) {
 	case w[0] == "err":
 		// an error return is not a crash; counted
 		e.stats["parsedmessage-returned-error"]++
+	case w[0] == "okshape" && len(w) == 12:
+		for i, which := range []string{"body", "bodystructure", "envelope"} {
+			if w[1+i] != "1" {
+				e.violation("malformed-"+which, "text is not a well-formed parenthesised list (Go checker)", c)
+			}
+		}
+		e.stats[fmt.Sprintf("shape.%s.structure-%s", c.deepK, w[4])]++
+		switch w[4] {
+		case "tree":
+		case "flat":
+			e.violation("rfc822-multipart-flattened", "message/rfc822 part holding a multipart message is reported as a multipart with subtype \"rfc822\" (no size, envelope, lines); otherwise the BODYSTRUCTURE is the tree the message was built from", c)
+		default:
+			e.violation("tree-mismatch", "reported BODYSTRUCTURE differs from the MIME tree the message was built from: "+string(mimeUnhex(w[8])), c)
+		}
+		if w[5] != "ok" {
+			e.violation("tree-sections-differ", "the sections Parse+Walk visits are not the parts of the MIME tree the message was built from: "+string(mimeUnhex(w[9])), c)
+		}
+		if w[6] != "ok" {
+			e.violation("body-section-not-the-part", "a body section does not address the part of the MIME tree its number path names: "+string(mimeUnhex(w[10])), c)
+		}
+		if w[11] != "-" {
+			e.addText(mimeUnhex(w[11]), c)
+		}
+		e.nontrivial++
 	case w[0] == "okdeep" && len(w) == 7:
 		for i, which := range []string{"body", "bodystructure", "envelope"} {
 			if w[1+i] != "1" {
@@ -693,6 +862,26 @@ func c12GenCases(r *Rng, n int, deep string) []*c12case {
 	for _, d := range deeps {
 		cs = append(cs, &c12case{kind: "deep", class: "deep-" + d.k, deepK: d.k, depth: d.d})
 	}
+	if deep == "quick" || deep == "thorough" { // size / depth boundaries (d_mimedeep.go)
+		shapes := c12DirectedShapes(2, r)
+		nrand := 40
+		if deep == "thorough" {
+			nrand = 400
+			for _, d := range []int{2047, 2048, 2049, 4096, 4097} {
+				shapes = append(shapes, c12ShapeSpec{"multipart", d, 0})
+			}
+			for _, d := range []int{1001, 1025} {
+				shapes = append(shapes, c12ShapeSpec{"alt", d, 0}, c12ShapeSpec{"alt-r", d, 0}, c12ShapeSpec{"rfc822", d, 0})
+			}
+			shapes = append(shapes, c12ShapeSpec{"wide", 1, 65537}, c12ShapeSpec{"alt", 2049, 0})
+		}
+		for i := 0; i < nrand; i++ {
+			shapes = append(shapes, c12RandomShape(r))
+		}
+		for _, s := range shapes {
+			cs = append(cs, &c12case{kind: "shape", class: "shape-" + s.kind, deepK: s.kind, depth: s.d, width: s.w})
+		}
+	}
 	return cs
 }
 
@@ -751,7 +940,7 @@ func runC12Structure(args []string) int {
 			}
 		}
 		timeout := 30 * time.Second
-		if c.kind == "deep" {
+		if c.kind == "deep" || c.kind == "shape" {
 			timeout = 240 * time.Second
 		}
 		res, status := w.run(c, timeout)
